@@ -213,6 +213,12 @@ func (s *session) executeCopyInserts(table string, cols []string, rows [][]strin
 
 			for _, stmt := range stmts {
 				if err := s.exec(stmt, nil, nil, false); err != nil {
+					if s.txStatus == bm.TxStatusFailed {
+						// inside a transaction block the failed row aborted the
+						// block (the engine cancelled the transaction): the rows
+						// after it must not be inserted outside of it
+						return totalInserted, fmt.Errorf("COPY %s: %w", table, err)
+					}
 					s.log.Warningf("COPY INSERT exec error (skipping row): %v", err)
 					continue
 				}
